@@ -679,6 +679,8 @@ class Emitter:
         if isref:
             ret += "*"
         cname = self.fn_cname(tag, name, None)
+        # overloads distinguished by arity: config rename {"Class__name/<number of arguments>": cname}
+        cname = self.renames.get("%s/%d" % (cname, len(args)), cname)
         pc = (["struct %s*" % tag] if obj is not None else []) + pcs
         self.note_proto(cname, ret, pc, "%s::%s (signature inferred at call site)" % (tag, name))
         self.callees.setdefault(cname, "%s::%s" % (tag, name))
